@@ -263,7 +263,7 @@ def c11(tier):
         elif len(ck.samples) < 3:
             ck.sample({"program": p["prog"], "checks_run": ob.get("checks")})
     for f in known.values():
-        if f["id"] not in ck.known_hits:
+        if f["id"] not in ck.known_hits and not ck.violations:
             raise Inconclusive("known finding %s did not reproduce: remove it from known_findings.json" % f["id"])
     ck.extra["programs"] = len(progs)
     ck.extra["acceptance_model_drift"] = drift
